@@ -160,7 +160,10 @@ void hv_case(uint64_t index)
     unsigned loaded = 0, native = 0;
     for (unsigned k = 0; k < nt && !hv_viol_count(); k++) for (unsigned j = 0; j < nh; j++) {
       struct hist_result ref; one_history(HV.seed, index, k * 8 + j, &ref, 1);
-      if (ref.loaded != w[k].res[j].loaded || ref.digest != w[k].res[j].digest) { hv_viol(ref.loaded == 8 ? "independent.result_differs.native" : "independent.result_differs", "history %u of thread %u (source kind %d) gave digest %llx concurrently and %llx alone", j, k, ref.loaded - 1, (unsigned long long)w[k].res[j].digest, (unsigned long long)ref.digest); break; }
+      /* a load of the running system depends on the state of the machine at that moment (other processes, cgroup, frequencies): it takes part in
+       * the race detection but its result is not compared */
+      if (ref.loaded == 8 || w[k].res[j].loaded == 8) { if (ref.digest != w[k].res[j].digest) hv_stat("independent.native_digests_differ_not_judged", 1); }
+      else if (ref.loaded != w[k].res[j].loaded || ref.digest != w[k].res[j].digest) { hv_viol("independent.result_differs", "history %u of thread %u (source kind %d) gave digest %llx concurrently and %llx alone", j, k, ref.loaded - 1, (unsigned long long)w[k].res[j].digest, (unsigned long long)ref.digest); break; }
       if (ref.loaded) loaded++; if (ref.loaded == 8) native++;
     }
     hv_stat("independent.groups", 1); hv_stat("independent.threads", nt); hv_stat("independent.histories", (uint64_t)nt * nh); hv_stat("independent.histories_loaded", loaded); hv_stat("independent.native_loads", native);
